@@ -741,7 +741,7 @@ class Translator:
         prvalue arguments are passed by value, everything else by address"""
         opn = {'operator=': 'assign', 'operator()': 'call'}.get(name, re.sub(r'\W+', '_', name))
         if name == 'operator=' and args:
-            opn = 'assign_move' if self.is_move_call(args[0]) is not None else 'assign_copy'
+            opn = 'assign_move' if (self.is_move_call(args[0]) is not None or self.skip(args[0]).get('valueCategory') == 'xvalue') else 'assign_copy'
         cn = f'{rec.c}_{opn}'
         a = [optr]; ps = [f'{rec.c} *self']
         for i, x in enumerate(args):
